@@ -26,7 +26,9 @@ RULE = ("Every generated design (C03's space: module trees of up to five modules
         "signal of every module (located through the returned name map) is compared; bits the RTLIL leaves undefined "
         "are masked and counted. expressions: C01's expression grammar (depth 3/5) computed inside a submodule from "
         "top-level inputs and observed in a widened combinational signal, through a register and through a narrower "
-        "signal of the other signedness, on exhaustive or corner input vectors. programs == designs converted; disagreements_checked == signal comparisons made. "
+        "signal of the other signedness, on exhaustive or corner input vectors. library: the standard library's FIFOs (all "
+        "four), CRC processor and CDC primitives with generated parameters, driven with generated input / two-clock / "
+        "reset events. programs == designs converted; disagreements_checked == signal comparisons made. "
         "Non-trivial: the RTLIL has >=2 modules, or a process with a nested switch, or a memory, and the trace is "
         "not constant. Distinct by canonical hash of the case.")
 ASSUMPTIONS = [
@@ -333,17 +335,153 @@ def expr_body(ctx, case):
     ctx.note(case, d >= 2, *keys, evals=n[0])
 
 
+# ------------------------------------------------------------------------------------------ standard-library blocks
+def lib_make(kind, p):
+    """-> (top, inputs, outputs, clock signals)"""
+    from amaranth.hdl import ClockDomain
+    from amaranth.lib import fifo, cdc, crc
+    top = Module()
+    cds = [ClockDomain("sync"), ClockDomain("other")]
+    top.domains += cds
+    if kind in ("SyncFIFO", "SyncFIFOBuffered"):
+        f = getattr(fifo, kind)(width=p["w"], depth=p["depth"])
+        top.submodules.dut = f
+        ins, outs = [f.w_data, f.w_en, f.r_en], [f.w_rdy, f.r_rdy, f.r_data, f.level]
+    elif kind in ("AsyncFIFO", "AsyncFIFOBuffered"):
+        f = getattr(fifo, kind)(width=p["w"], depth=max(p["depth"], 2), r_domain="sync", w_domain="other")
+        top.submodules.dut = f
+        ins, outs = [f.w_data, f.w_en, f.r_en], [f.w_rdy, f.r_rdy, f.r_data, f.r_level, f.w_level]
+    elif kind == "crc":
+        algo = crc.Algorithm(crc_width=p["w"] + 3, polynomial=(p["poly"] | 1) & ((1 << (p["w"] + 3)) - 1), initial_crc=0,
+                             reflect_input=bool(p["depth"] & 1), reflect_output=bool(p["depth"] & 2), xor_output=p["poly"] & 5)
+        c = algo(max(p["w"], 1)).create()
+        top.submodules.dut = c
+        ins, outs = [c.start, c.data, c.valid], [c.crc, c.match_detected]
+    elif kind == "ffsync":
+        i, o = Signal(max(p["w"], 1), name="i"), Signal(max(p["w"], 1), name="o")
+        top.submodules.dut = cdc.FFSynchronizer(i, o, o_domain="other", stages=2 + p["depth"] % 3, init=p["poly"] & ((1 << max(p["w"], 1)) - 1))
+        ins, outs = [i], [o]
+    elif kind == "pulse":
+        ps = cdc.PulseSynchronizer("sync", "other", stages=2 + p["depth"] % 2)
+        top.submodules.dut = ps
+        ins, outs = [ps.i], [ps.o]
+    elif kind == "resetsync":
+        a = Signal(name="arst")
+        top.submodules.dut = cdc.ResetSynchronizer(a, domain="other", stages=2 + p["depth"] % 3)
+        r = Signal(4, name="r")
+        top.d.other += r.eq(r + 1)
+        ins, outs = [a], [r]
+        return top, ins, outs, [cds[0].clk, cds[1].clk], [cds[0].rst]
+    else:
+        raise HarnessError(kind)
+    return top, ins, outs, [cds[0].clk, cds[1].clk], [cds[0].rst, cds[1].rst]
+
+
+LIB_KINDS = ["SyncFIFO", "SyncFIFOBuffered", "AsyncFIFO", "AsyncFIFOBuffered", "crc", "ffsync", "pulse", "resetsync"]
+
+
+@st.composite
+def lib_cases(draw, nev):
+    kind = PICK(draw, LIB_KINDS)
+    p = {"w": draw(INT(0, 5)), "depth": draw(INT(0, 6)), "poly": draw(INT(0, 255))}
+    evs = []
+    for _ in range(nev):
+        k = draw(INT(0, 9))
+        if k <= 4:
+            evs.append(["clk", PICK(draw, [[0], [1], [0, 1], [0], [1]])])
+        elif k <= 8:
+            evs.append(["in", draw(INT(0, 2)), draw(INT(0, 63))])
+        else:
+            evs.append(["rst", draw(INT(0, 1)), draw(INT(0, 1))])
+    return {"kind": kind, "p": p, "events": evs}
+
+
+def lib_body(ctx, case):
+    simorder.set_policy(None)
+    with warnings.catch_warnings():
+        warnings.simplefilter("ignore")
+        top, ins, outs, clks, rsts = lib_make(case["kind"], case["p"])
+        sim = Simulator(top)
+        top2, ins2, outs2, clks2, rsts2 = lib_make(case["kind"], case["p"])
+        pd = {}
+        for k, s_ in enumerate(ins2): pd[f"in{k}"] = (s_, None)
+        for k, s_ in enumerate(outs2): pd[f"out{k}"] = (s_, None)
+        for k, s_ in enumerate(clks2): pd[f"clk{k}"] = (s_, None)
+        for k, s_ in enumerate(rsts2): pd[f"rst{k}"] = (s_, None)
+        text, _ = rtlil.convert_fragment(Fragment.get(top2, None), ports=pd, name="top")
+    try:
+        design = RR.parse(text)
+        ev = RE.Evaluator(design)
+    except (RR.RTLILSyntaxError, RR.UnknownWire, RR.SliceOutOfBounds) as ex:
+        raise Mismatch("rtlil-does-not-parse", error=str(ex)[:300])
+    def rset(upd):
+        upd = {"\\" + k: v for k, v in upd.items() if "\\" + k in ev.inputs}
+        if upd:
+            ev.set_inputs(upd)
+    rset({n_: (s_.init & ((1 << len(s_)) - 1)) for n_, (s_, _) in pd.items()})
+    fail = []
+    n = [0, 0, False]
+    lv = [0, 0]
+
+    async def tb(c):
+        last = None
+        for step, evn in enumerate(case["events"]):
+            if evn[0] == "clk":
+                v = 0
+                upd = {}
+                for j, k in enumerate(evn[1]):
+                    lv[k] ^= 1
+                    v |= lv[k] << j
+                    upd[f"clk{k}"] = lv[k]
+                c.set(Cat(*[clks[k] for k in evn[1]]), v)
+                rset(upd)
+            elif evn[0] == "in":
+                if evn[1] < len(ins):
+                    s_ = ins[evn[1]]
+                    val = evn[2] & ((1 << len(s_)) - 1)
+                    c.set(s_, val); rset({f"in{evn[1]}": val})
+            else:
+                if evn[1] < len(rsts):
+                    c.set(rsts[evn[1]], evn[2]); rset({f"rst{evn[1]}": evn[2]})
+            cur = []
+            for k, s1 in enumerate(outs):
+                w = len(s1)
+                got = c.get(s1) & ((1 << w) - 1)
+                cur.append(got)
+                if ("\\" + f"out{k}",) not in ev.wires:
+                    continue
+                rv, rx = ev.get(("\\" + f"out{k}",))
+                n[0] += 1
+                if rx: n[1] += 1
+                if (got ^ rv) & ~rx & ((1 << w) - 1):
+                    fail.append(Mismatch("simulator-and-rtlil-disagree", block=case["kind"], params=case["p"], step=step, event=evn,
+                                         output=k, simulator=got, rtlil=rv, rtlil_undef_mask=rx)); return
+            if last is not None and cur != last: n[2] = True
+            last = cur
+    with warnings.catch_warnings():
+        warnings.simplefilter("ignore")
+        sim.add_testbench(tb)
+        sim.run()
+    if fail:
+        raise fail[0]
+    ctx.extra["programs"] = ctx.extra.get("programs", 0) + 1
+    ctx.extra["disagreements_checked"] = ctx.extra.get("disagreements_checked", 0) + n[0]
+    ctx.extra["masked_comparisons"] = ctx.extra.get("masked_comparisons", 0) + n[1]
+    ctx.note(case, n[2], "lib:" + case["kind"], evals=n[0])
+
+
 def parts(tier):
     q = tier == "quick"
     simorder.install()
     from vlib import gen_expr as G
     return [Part("designs", "hyp", strategy=cases(2 if q else 3, 16 if q else 40), body=body, n=60 if q else 1000),
             Part("expressions", "hyp", strategy=G.expr_case(depth=3 if q else 5, maxw=6 if q else 10), body=expr_body,
-                 n=250 if q else 4000)]
+                 n=250 if q else 4000),
+            Part("library", "hyp", strategy=lib_cases(40 if q else 120), body=lib_body, n=60 if q else 800)]
 
 
 REQUIRED = ["c04:>=2-modules", "c04:nested-switch", "c04:memory", "c04:trace-not-constant", "c04:cross-module-links",
-            "c04:async-reset-flops", "c04:part-select", "expr:depth3"] + \
+            "c04:async-reset-flops", "c04:part-select", "expr:depth3"] + ["lib:" + k for k in LIB_KINDS] + \
            ["xop:" + o for o in ("b:+", "b:-", "b:*", "b://", "b:%", "b:<<", "b:>>", "b:==", "b:<", "b:&", "u:neg", "u:~", "u:abs",
                                  "u:as_s", "u:as_u", "bsel", "wsel", "mux", "arr", "match", "cat", "rep", "slice", "rol", "shl")]
 
